@@ -264,7 +264,10 @@ def keeps(sch, name):
 
 def is_arg_swallow(sch, cfg, tname, mode):
     """F-13a class: keep build, sync decoder, the value contains a struct that is in pilota-build's `args` set
-    (once its known fields are seen it takes `remaining - 2` bytes of the WHOLE input as unknown fields)"""
+    (once its known fields are seen it takes `remaining - 2` bytes of the WHOLE input as unknown fields).
+    Membership in the class is only the PRECONDITION of the attribution: gencheck.confirm_known keeps a failing case in
+    the class only if the extracted model of that defect (GenKeep's is_arg clause) predicts the code's outcome on the
+    input exactly; any other deviation on such a struct is reported as a violation with that case."""
     if 'keep' not in cfg or mode != 'sync':
         return False
     return reaches(sch, tname, lambda n, d: d['kind'] == 'struct' and 'a' in d['flags'] and 'k' not in d['flags'])
